@@ -131,11 +131,14 @@ def _check_state(ctx, d, groups, tag):
     ctx.prove(any(_eq(v, val) for v in vals), tag + ":iteration-yields-values", "missing %r" % (val,))
 
 
+BIG = 10 ** 12      # keys/values are shifted so that equal keys are never the *same* int object in native replays
+
+
 def h_step(ctx, cfg):
   shape = cfg["shape"]; op = cfg["op"]
   nk = sum(shape)
-  keys = [ctx.int("k%d" % i, -50, 50) for i in range(nk)]
-  vals = [ctx.int("v%d" % i, -50, 50) for i in range(len(shape))]
+  keys = [ctx.int("k%d" % i, -50, 50) + BIG for i in range(nk)]
+  vals = [ctx.int("v%d" % i, -50, 50) - BIG for i in range(len(shape))]
   for i in range(nk):
     for j in range(i): ctx.assume(keys[i] != keys[j])
   for i in range(len(vals)):
@@ -143,7 +146,7 @@ def h_step(ctx, cfg):
   it = iter(keys)
   groups = [([next(it) for _ in range(n)], v) for n, v in zip(shape, vals)]
   d = _build(ctx, groups)
-  a = ctx.int("a", -50, 50); b = ctx.int("b", -50, 50); w = ctx.int("w", -50, 50)
+  a = ctx.int("a", -50, 50) + BIG; b = ctx.int("b", -50, 50) + BIG; w = ctx.int("w", -50, 50) - BIG
   if op == "set1":
     d[a] = w; exp = model_set(groups, [a], w)
   elif op == "set2":
@@ -187,7 +190,8 @@ def h_history(ctx, cfg):
   groups = []
   for t in range(cfg["steps"]):
     op = ctx.choice("op%d" % t, ["set1", "set2", "del"])
-    a = ctx.int("a%d" % t, 0, cfg["U"]); b = ctx.int("b%d" % t, 0, cfg["U"]); w = ctx.int("w%d" % t, 0, cfg["U"])
+    a = ctx.int("a%d" % t, 0, cfg["U"]) + BIG; b = ctx.int("b%d" % t, 0, cfg["U"]) + BIG
+    w = ctx.int("w%d" % t, 0, cfg["U"]) - BIG
     if op == "set1":
       d[a] = w; groups = model_set(groups, [a], w)
     elif op == "set2":
